@@ -138,7 +138,7 @@ def build_archives(bdir, variant, extra_defs, log):
 
 WRAPS = ["malloc", "calloc", "realloc", "free", "strdup",
          "readv", "writev", "poll", "fcntl", "close", "dup", "getsockopt",
-         "_mpt_abort"]
+         "_mpt_abort", "_ZdlPv", "_ZdlPvm"]
 
 
 def build_world(bdir, world, archives, variant, log):
